@@ -1,4 +1,5 @@
 import Glas.Props.C15
+import Glas.Props.C15Ids
 #print axioms Glas.Props.C15.fromPos_never_panics
 #print axioms Glas.Props.C15.applyChange_never_panics
 #print axioms Glas.Props.C15.applyChange_ok_small
@@ -18,3 +19,10 @@ import Glas.Props.C15
 #print axioms Glas.Props.C15.applied_keeps_open
 #print axioms Glas.Props.C15.changed_reread
 #print axioms Glas.Props.C15.srun_total
+#print axioms Glas.Props.C15Ids.reachable_inv
+#print axioms Glas.Props.C15Ids.set_lookup_self
+#print axioms Glas.Props.C15Ids.set_lookup_other
+#print axioms Glas.Props.C15Ids.remove_lookup_self
+#print axioms Glas.Props.C15Ids.remove_lookup_other
+#print axioms Glas.Props.C15Ids.refines_map
+#print axioms Glas.Props.C15Ids.ids_injective
